@@ -2,7 +2,7 @@
 
 E-PY: the real functions of transactron/utils/data_repr.py are executed on symbolic integers (engine/pysym.py); per
 feasible path a verification condition is discharged by z3, and every arithmetic step's no-overflow side condition is
-discharged too, so the 48-bit model coincides with Python's unbounded integers on the stated input ranges:
+discharged too, so the 40-bit model coincides with Python's unbounded integers on the stated input ranges:
   int_to_signed / signed_to_int are inverse on width-bounded values; align_to_power_of_two(n, p) is the least multiple
   of 2^p >= n, align_down_... the greatest <= n; bits_from_int and neg against their arithmetic definitions.
 E-HW: transpose(v)[i][o] == v[o][i] for all v per two-level layout; transpose_layout is an involution; the Const
